@@ -142,6 +142,8 @@ def job_q(job, seed):
 
 
 def job_hkl(job, seed):
+    variant = job  # 'scalar' | 'array' (one sample rotation per scan point)
+    import numpy as np
     from symex import core as C
     from symsc import api
     from symsc import variable as V
@@ -150,13 +152,16 @@ def job_hkl(job, seed):
     sc, tof = _load()
     fresh_run()
     obs, cands = [], []
-    case = {'kind': 'hkl'}
+    case = {'kind': 'hkl', 'variant': variant}
+    tagp = f'hkl[{variant} rotation]'
 
-    def chk(name, goal, assumptions=(), sig='C08:hkl'):
-        ob = C.prove(f'hkl:{name}', goal, assumptions=assumptions, timeout_ms=30000)
-        obs.append(ob_dict(ob))
-        if ob.status == 'violated':
-            cands.append((sig, case, name))
+    def chk(name, goal, assumptions=(), sig='C08:hkl', record=True):
+        ob = C.prove(f'{tagp}:{name}', goal, assumptions=assumptions, timeout_ms=30000)
+        if record:
+            obs.append(ob_dict(ob))
+            if ob.status == 'violated':
+                cands.append((sig, case, name))
+        return ob
 
     def M(name):
         return [[C.sym_var(f'{name}{i}{j}') for j in range(3)] for i in range(3)]
@@ -167,10 +172,12 @@ def job_hkl(job, seed):
     def mv(a, v):
         return [sum((a[i][k] * v[k] for k in range(3)), C.R.lift(0)) for i in range(3)]
 
-    Um, Bm, Rm, Wm = M('U'), M('B'), M('R'), M('W')
+    Um, Bm, Rm = M('U'), M('B'), M('R')
     U = _mkmat(Um, 'dimensionless', 'rotation3')
     Bv = _mkmat(Bm, '1/angstrom')
     Rv = _mkmat(Rm, 'dimensionless', 'rotation3')
+    if variant == 'array':
+        Rv = V.Variable(_arr=Rv._a.reshape((1, 3, 3)).copy(), dims=('scan',), unit=Rv.unit, dtype=Rv.dtype)
     ub = _single(C.explore(lambda: tof.ub_matrix_from_u_and_b(u_matrix=U, b_matrix=Bv)), obs, cands, 'ub', case)
     if ub is None:
         return {'obligations': obs, 'candidates': cands, 'paths': 1}
@@ -179,43 +186,63 @@ def job_hkl(job, seed):
     chk('unit(UB)=unit(B)', C.B.const(ub.unit == Bv.unit))
     Qv = [C.sym_var(f'Q{c}') for c in 'xyz']
     Q = _mkvec(Qv, V.parse_unit('1/angstrom'))
-    rec = {}
+    calls = []
 
     def inv_hook(var):
-        rec['M'] = var.copy()
-        return _mkmat(Wm, V.Unit() / var.unit, var.dtype.name)
+        k = len(calls)
+        Wm = M(f'W{k}_')
+        w = _mkmat(Wm, V.Unit() / var.unit, var.dtype.name)
+        if var.dims:
+            w = V.Variable(_arr=np.broadcast_to(w._a, var._a.shape).copy(), dims=var.dims, unit=w.unit, dtype=w.dtype)
+        calls.append((var.copy(), Wm))
+        return w
 
     api.INV_HOOK[0] = inv_hook
     try:
         hkl = _single(C.explore(lambda: tof.hkl_vec_from_Q_vec(Q_vec=Q, ub_matrix=ub, sample_rotation=Rv)), obs, cands, 'hkl', case)
     finally:
         api.INV_HOOK[0] = None
-    if hkl is None or 'M' not in rec:
-        if hkl is not None:
-            obs.append({'name': 'hkl:inverse-structure', 'status': 'inconclusive', 'detail': 'spatial.inv not called', 't': 0})
+    if hkl is None:
         return {'obligations': obs, 'candidates': cands, 'paths': 1}
-    Mo = mm(Rm, UB)
-    chk('inverted matrix = R.(U.B)', C.all_of([rec['M'].values[i, j] == Mo[i][j] for i in range(3) for j in range(3)]))
     chk('unit(hkl) dimensionless', C.B.const(hkl.unit == V.Unit()))
-    h = vec(hkl)
-    WQ = mv(Wm, Qv)
-    chk('2pi*hkl = W.Q (W = inv(R.UB))', C.all_of([2 * PI() * h[i] == WQ[i] for i in range(3)]))
-    # associativity identity M(WQ) = (MW)Q, then MW = I (contract of inv) gives 2pi R UB hkl = Q
-    MW = mm(Mo, Wm)
-    lhs = mv(Mo, WQ)
-    rhs = mv(MW, Qv)
-    chk('M(WQ)=(MW)Q', C.all_of([lhs[i] == rhs[i] for i in range(3)]))
-    P = M('P')
-    chk('(MW=I) => (MW)Q=Q', C.all_of([mv(P, Qv)[i] == Qv[i] for i in range(3)]),
-        assumptions=[P[i][j] == (1 if i == j else 0) for i in range(3) for j in range(3)])
-    # split is lossless
+    h = [hkl.values.reshape(-1)[i] for i in range(3)]
+    Mo = mm(Rm, UB)
+    # contract of every inverse taken by the code: M_k W_k = W_k M_k = I
+    contracts = []
+    for var, Wm in calls:
+        Mk = [[var.values.reshape(-1, 3, 3)[0][i][j] for j in range(3)] for i in range(3)]
+        for P_ in (mm(Mk, Wm), mm(Wm, Mk)):
+            contracts += [P_[i][j] == (1 if i == j else 0) for i in range(3) for j in range(3)]
+    structural = len(calls) == 1 and chk('structural', C.all_of([calls[0][0].values.reshape(-1, 3, 3)[0][i][j] == Mo[i][j] for i in range(3) for j in range(3)]), record=False).status == 'discharged'
+    if structural:
+        Wm = calls[0][1]
+        chk('inverted matrix = R.(U.B)', C.TRUE)
+        WQ = mv(Wm, Qv)
+        chk('2pi*hkl = W.Q (W = inv(R.UB))', C.all_of([2 * PI() * h[i] == WQ[i] for i in range(3)]))
+        MW = mm(Mo, Wm)
+        lhs = mv(Mo, WQ)
+        rhs = mv(MW, Qv)
+        chk('M(WQ)=(MW)Q', C.all_of([lhs[i] == rhs[i] for i in range(3)]))
+        P = M('P')
+        chk('(MW=I) => (MW)Q=Q', C.all_of([mv(P, Qv)[i] == Qv[i] for i in range(3)]),
+            assumptions=[P[i][j] == (1 if i == j else 0) for i in range(3) for j in range(3)])
+    else:
+        # another decomposition of the inverse: decide 2 pi R UB hkl = Q directly under the inverse contracts
+        back = mv(Mo, [2 * PI() * x for x in h])
+        ob = chk(f'2 pi R UB hkl = Q under the contracts of the {len(calls)} inverse(s) taken', C.all_of([back[i] == Qv[i] for i in range(3)]), assumptions=contracts, record=False)
+        if ob.status == 'discharged':
+            obs.append(ob_dict(ob))
+        else:
+            obs.append({'name': f'{tagp}:2 pi R UB hkl = Q', 'status': 'violated' if ob.status == 'violated' else 'inconclusive', 't': ob.t,
+                        'detail': f'inverse taken of {len(calls)} matrices; the product does not reduce to Q'})
+            cands.append(('C08:hkl', case, 'hkl does not satisfy 2 pi R UB hkl = Q'))
     el = _single(C.explore(lambda: tof.hkl_elements_from_hkl_vec(hkl_vec=hkl)), obs, cands, 'hkl-elements', case)
     if el is not None:
-        chk('(h,k,l) = components of hkl_vec', C.all_of([el[k].value == h[i] for i, k in enumerate('hkl')]))
-    # canary: reversed product must be refuted
-    Mr = mm(UB, Rm)
-    ob = C.prove('canary', C.all_of([rec['M'].values[i, j] == Mr[i][j] for i in range(3) for j in range(3)]), timeout_ms=20000)
-    obs.append({'name': 'hkl:canary:inverted matrix = UB.R (must be refuted)', 'status': 'discharged' if ob.status == 'violated' else 'inconclusive', 't': ob.t})
+        chk('(h,k,l) = components of hkl_vec', C.all_of([el[k].values.reshape(-1)[0] == h[i] for i, k in enumerate('hkl')]))
+    if structural and variant == 'scalar':
+        Mr = mm(UB, Rm)
+        ob = C.prove('canary', C.all_of([calls[0][0].values[i, j] == Mr[i][j] for i in range(3) for j in range(3)]), timeout_ms=20000)
+        obs.append({'name': 'hkl:canary:inverted matrix = UB.R (must be refuted)', 'status': 'discharged' if ob.status == 'violated' else 'inconclusive', 't': ob.t})
     return {'obligations': obs, 'candidates': cands, 'paths': 1}
 
 
@@ -249,7 +276,7 @@ def run(chk):
     chk.functions = loader.describe([tof.Q_elements_from_wavelength, tof.Q_vec_from_Q_elements, tof.hkl_vec_from_Q_vec,
                                      tof.ub_matrix_from_u_and_b, tof.hkl_elements_from_hkl_vec, tof.Q_from_wavelength])
     run_jobs(chk, job_q, ['definition', 'units', 'rescale', 'rotation'])
-    run_jobs(chk, job_hkl, [0])
+    run_jobs(chk, job_hkl, ['scalar', 'array'])
     run_jobs(chk, job_inv_model, [0])
     chk.bounds = {'shapes': 'scalar operands', 'matrices': 'U, B, R arbitrary real 3x3 (non-singular R.UB); W = inv(R.UB) as 9 fresh variables with M.W = I'}
     chk.stubs = ['scipp -> symsc', 'numpy pi -> symbolic pi', 'spatial.inv -> fresh matrix W with contract M.W = I (lemma chain)']
@@ -290,6 +317,15 @@ def replay_real(case):
         back = 2 * np.pi * R @ U @ B @ hkl.value
         if not np.allclose(back, got, rtol=1e-9, atol=1e-9 * np.linalg.norm(got)):
             bad.append(f'2pi R UB hkl = {back} vs Q = {got}')
+        # one rotation per scan point (array-valued sample_rotation)
+        Rs = [Rotation.random(random_state=rng.integers(1 << 30)) for _ in range(3)]
+        Rarr = sc.spatial.rotations_from_rotvecs(sc.vectors(dims=['scan'], values=[r_.as_rotvec() for r_ in Rs], unit='rad'))
+        hk = rt.hkl_vec_from_Q_vec(Q_vec=qv, ub_matrix=ub, sample_rotation=Rarr)
+        for i_, r_ in enumerate(Rs):
+            back = 2 * np.pi * r_.as_matrix() @ U @ B @ hk.values[i_]
+            if not np.allclose(back, got, rtol=1e-9, atol=1e-9 * np.linalg.norm(got)):
+                bad.append(f'array sample_rotation: 2pi R UB hkl = {back} vs Q = {got}')
+                break
         el = rt.hkl_elements_from_hkl_vec(hkl_vec=hkl)
         if [el['h'].value, el['k'].value, el['l'].value] != list(hkl.value):
             bad.append('hkl split')
